@@ -1,6 +1,26 @@
 import OSProofs.Props.C04
+import OSProofs.Props.C04b
 #print axioms OS.sumL_perm
 #print axioms OS.C04_teamAgg_perm
 #print axioms OS.C04_applyTeam_perm
 #print axioms OS.C04_sumPairs_perm
 #print axioms OS.C04_plC_perm
+#print axioms OS.C04b_omegaDelta_teamPerm
+#print axioms OS.C04b_omegaDelta_teamPerm_getElem
+#print axioms OS.C04b_teamAggs_playerPerm
+#print axioms OS.C04b_omegaDelta_congr
+#print axioms OS.C04b_omegaDelta_playerPerm
+#print axioms OS.C04b_compute_playerPerm_fn
+#print axioms OS.C04b_compute_playerPerm
+#print axioms OS.C04b_compute_playerPerm_id
+#print axioms OS.C04b_rate_playerPerm_fn
+#print axioms OS.C04b_rate_playerPerm
+#print axioms OS.C04b_rate_playerPerm_id
+#print axioms OS.C04b_unwind_stable
+#print axioms OS.C04b_sortedKeys_stable
+#print axioms OS.C04b_unwind_tiefree
+#print axioms OS.C04b_rate_teamPerm_stable
+#print axioms OS.C04b_rate_ranks_teamPerm_stable
+#print axioms OS.C04b_rate_teamPerm_tiefree
+#print axioms OS.C04b_rate_full_sortfree
+#print axioms OS.C04b_rate_teamPerm_full
